@@ -159,6 +159,11 @@ def exe_for(kind, rng=None):
         "armhf2": dict(cls=1, data=1, machine=40, flags=0x05000402),
         "armel": dict(cls=1, data=1, machine=40, flags=0x05000200),
         "arm-eabi4": dict(cls=1, data=1, machine=40, flags=0x04000400),
+        # EABI version bytes that contain the bits of 5 without being 5 (a masked test `flags & V == V` accepts them)
+        "arm-eabi7": dict(cls=1, data=1, machine=40, flags=0x07000400),
+        "arm-eabi0d": dict(cls=1, data=1, machine=40, flags=0x0D000400),
+        "arm-eabiff": dict(cls=1, data=1, machine=40, flags=0xFF000400),
+        "arm-eabi5-nofloat-bits": dict(cls=1, data=1, machine=40, flags=0x05000B00),
         "arm-be": dict(cls=1, data=2, machine=40, flags=0x05000400),
         "arm64as32": dict(cls=2, data=1, machine=40, flags=0x05000400),
         "aarch64": dict(cls=2, data=1, machine=183, flags=0),
